@@ -104,6 +104,57 @@ func VerifC14Index() {
 	}
 }
 
+// VerifC14OwnedMaps: source maps that belong to nodes (linked through sources). The map of a node
+// holds the node's own entry and entries of its properties, keyed by the property IRI - which can be
+// the id of another node (the use of a custom domain property is a property named after its
+// declaration node). Such an entry is not a location of that other node: a node's range is the one
+// recorded in its own map, and a node with property-level mentions only has no location.
+func VerifC14OwnedMaps() {
+	decl, user := "http://x/decl", "http://x/user"
+	declHasOwnEntry := v.Bool("declHasOwnEntry")
+	declHasMap := declHasOwnEntry || v.Bool("declHasEmptyMap")
+	userFirst := v.Bool("userMapFirst")
+	single := v.Bool("sourcesAsObject")
+	link := func(id string) any {
+		if single {
+			return verifObj("@id", id)
+		}
+		return []any{verifObj("@id", id)}
+	}
+	declNode := verifObj("@id", decl, "@type", "http://example.org/C")
+	userNode := verifObj("@id", user, "@type", "http://example.org/C", decl, verifObj("@id", "http://x/value"), smNS+"sources", link("http://x/sm-user"))
+	var declMap []any
+	if declHasMap {
+		declNode[smNS+"sources"] = link("http://x/sm-decl")
+		sm := verifObj("@id", "http://x/sm-decl", "@type", smNS+"SourceMap")
+		if declHasOwnEntry {
+			sm[smNS+"lexical"] = []any{verifObj("@id", "http://x/lex-decl")}
+			declMap = append(declMap, verifObj("@id", "http://x/lex-decl", smNS+"element", decl, smNS+"value", "[(3,2)-(5,0)]"))
+		}
+		declMap = append(declMap, sm)
+	}
+	userMap := []any{
+		verifObj("@id", "http://x/lex-user", smNS+"element", user, smNS+"value", "[(7,0)-(30,0)]"),
+		verifObj("@id", "http://x/lex-use-of-decl", smNS+"element", decl, smNS+"value", "[(20,0)-(20,18)]"),
+		verifObj("@id", "http://x/sm-user", "@type", smNS+"SourceMap", smNS+"lexical", []any{verifObj("@id", "http://x/lex-user"), verifObj("@id", "http://x/lex-use-of-decl")}),
+	}
+	nodes := []any{declNode, userNode, verifObj("@id", "http://x/value", "@type", "http://example.org/D")}
+	if userFirst {
+		nodes = append(append(nodes, userMap...), declMap...)
+	} else {
+		nodes = append(append(nodes, declMap...), userMap...)
+	}
+	lexical := Index(verifObj("@graph", nodes)).(types.ObjectMap)["@lexical"].(types.ObjectMap)
+	v.Reach("indexed")
+	userEntry, _ := lexical[user].(types.ObjectMap)
+	v.Assert("C14.range", userEntry != nil && userEntry["range"] == "[(7,0)-(30,0)]")
+	declEntry, has := lexical[decl].(types.ObjectMap)
+	v.Assert("C14.entry-iff-element", has == declHasOwnEntry)
+	if has && declHasOwnEntry {
+		v.Assert("C14.range", declEntry["range"] == "[(3,2)-(5,0)]")
+	}
+}
+
 // VerifC14RangeLayout: a lexical entry is indexed with its range text verbatim whatever the
 // textual layout of the four numbers is (the policy reads them with a digit scan, so blanks,
 // missing brackets, leading zeros and trailing text all still carry a location).
